@@ -12,7 +12,7 @@ SPEC = {
             "operators x every nonterminal, through StructuralPredicate.evaluate (paths) and a sample through "
             "StructuralPredicateFormula.evaluate (node ids); plus per tree one quantified formula per predicate through "
             "evaluate(). distinct = distinct (tree shape, predicate, entry point) with at least one judged pair",
-    "minimum": {"quick": {"pair_calls": 300000, "trees": 150, "via_evaluate": 300, "pairs_ancestor": 5000, "pairs_identical": 1000},
+    "minimum": {"quick": {"pair_calls": 300000, "trees": 150, "via_evaluate": 300, "pairs_ancestor": 5000, "pairs_identical": 1000, "pair_calls_in_situ": 100},
                 "thorough": {"pair_calls": 5000000, "trees": 2500, "via_evaluate": 5000}},
     "assumptions": ["R3 (islamon/ref/predicates.py): before = the spec's isBefore; after(a,b) = before(b,a); inside = prefix; "
                     "consecutive judged only for two leaves; level per the documented five-line comment; nth counted in "
@@ -188,6 +188,38 @@ def via_evaluate(ctx, g, m, t, allp, preds, tshape):
                           {"grammar": g, "tree": to_list(t), "formula": text})
 
 
+def insitu_slice(ctx, rng):
+    """structural predicate calls made by the solver / evaluator themselves"""
+    from islamon import insitu
+    fam, gname, g, log = insitu.solver_workload(ctx, rng, ["struct_pred"], families={"defuse-mexpr", "nth", "forall-level", "eq-two-nodes", "int-sum", "different"},
+                                                nsolve=3, random_share=0.5)
+    ctx.ev()
+    seen = set()
+    for name, tree, args, got in log["struct_pred"][:400]:
+        if any(a is None for a in args):
+            continue
+        a = [x if isinstance(x, str) else tuple(x) for x in args]
+        sig = (name, id(tree), tuple(a))
+        if sig in seen:
+            continue
+        seen.add(sig)
+        try:
+            exp = R3.pred_eval(name, tree, a)
+        except Exception:
+            continue
+        if exp is None:
+            ctx.count("not_judged_undocumented")
+            continue
+        ctx.count("pair_calls_in_situ")
+        if bool(got) != exp:
+            paths = [x for x in a if isinstance(x, tuple)]
+            key = classify(name, tree, paths[-2:], bool(got)) if len(paths) >= 2 else None
+            ctx.violation(key, f"{name}{tuple(a)} [in situ, called by the solver]: ISLa {got}, documented meaning {exp}",
+                          {"grammar": g, "tree": to_list(tree), "pred": name, "args": [list(x) if isinstance(x, tuple) else x for x in a], "family": fam})
+        else:
+            ctx.held((name, "in-situ", gname, exp))
+
+
 def run(ctx):
     from isla.isla_predicates import STANDARD_STRUCTURAL_PREDICATES
     from islamon.bridge import cut
@@ -195,6 +227,9 @@ def run(ctx):
     rng = ctx.rng
     corpus = [g for n, g in GG.FEATURE.items() if not n.startswith("wide")]
     while ctx.running():
+        if rng.random() < 0.08:
+            insitu_slice(ctx, rng)
+            continue
         g = rng.choice(corpus) if rng.random() < 0.6 else GG.random_grammar(rng)
         m = G(g)
         tl = m.random_tree(rng, budget=rng.choice([4, 8, 14, 20]))
